@@ -22,8 +22,10 @@ RULE = ("case = (generator type, construction path, jds, sizes, callbacks, motif
         "(some topology's stub count is not a multiple of its motif size; fast / network generator, all construction paths): "
         "every one with one topology under the same bounds, every 5th / 16th (quick; offset drawn from the seed) or 3rd / 4th "
         "(thorough) with two -- the short last group is handed to the callback, so WHICH stubs are left over must be uniform "
-        "as well; six of them in the corpus. COLLECTED ENSEMBLES: every second case of the families (parity drawn from the "
-        "seed) and five corpus entries draw the whole ensemble from ONE algorithm object and one jds list (one call per leaf "
+        "as well; six of them in the corpus. UNUSED TOPOLOGIES: every one-topology column C (N<=3 quick / N<=4 thorough, sum<=4) "
+        "embedded with all-zero columns that are not the last topology ([0,C], [C,0,C], [0,0,C] in rotation, the unused "
+        "topology's size rotating over 1..4), twelve of them in the corpus. COLLECTED ENSEMBLES: every second case of the families (parity drawn from the "
+        "seed) and 17 corpus entries draw the whole ensemble from ONE algorithm object and one jds list (one call per leaf "
         "of the oracle tree), keep every returned object untouched and tabulate AFTER the last draw from what the kept objects "
         "hold then (a kept result whose contents changed counts for the placement it shows now, or for none); the same "
         "c03_check judges that histogram, so results of successive calls that alias each other give a point mass. LONG STUB LISTS, checker only (no model call, no enumeration): 3 (thorough 12) "
@@ -232,6 +234,12 @@ def corpus():
                     "names": [[1]], "mis": [[0]] if tag == G.MOTIFS else []})
     out.append({"tag": G.FAST, "via": "main", "jds": [[1, 1], [1, 2], [2, 0]], "sizes": [2, 3], "codes": [G.CLIQUE, G.CLIQUE],
                 "names": [[1], [2]], "mis": []})
+    # an all-zero topology column in front of / between used ones (C03-r7-3: `break` at the first empty stub list)
+    for tag, via in ((G.FAST, "direct"), (G.NETWORK, "factory"), (G.MOTIFS, "main")):
+        for jds, sizes in (([[0, 1]] * 4, [2, 2]), ([[0, 1]] * 3, [2, 3]), ([[1, 0, 1]] * 2, [2, 3, 1]), ([[0, 0, 2], [0, 0, 1]], [1, 4, 3])):
+            T = len(sizes)
+            out.append({"tag": tag, "via": via, "jds": jds, "sizes": sizes, "codes": [G.CLIQUE] * T,
+                        "names": [[k + 1] for k in range(T)], "mis": [[k] for k in range(T)] if tag == G.MOTIFS else []})
     # the same ensembles COLLECTED from one generator object and tabulated after the last draw (C03-r7-1: one result
     # container per generator object, every kept result shows the last draw)
     out += [dict(c, collect=True) for c in list(out)]
@@ -294,6 +302,36 @@ def family(N_max1, N_max2, maxsum, tags_vias, nondiv=None):
                     codes = [G.CLIQUE if sum(sizes[j_] for j_ in idxs) != 2 or tag != G.MOTIFS else G.BARE for idxs in mis]
                     yield {"tag": tag, "via": via, "jds": jds, "sizes": list(sizes), "codes": codes,
                            "names": G.names_for(tag, codes, list(sizes), mis), "mis": mis if tag == G.MOTIFS else []}
+
+
+def zero_column_family(N_max, maxsum, tags_vias):
+    """joint degree sequences with an ALL-ZERO topology column that is NOT the last one (C03-r7-3: the shuffle loop left
+    at the first empty stub list, every later topology stays in vertex order): every one-topology column C of the
+    family embedded as [0, C], [C, 0, C] and [0, 0, C], in rotation; the unused topology's motif size rotates over
+    1..4 (every size divides 0).  The unused topology contributes one (empty) shuffle and no callback call."""
+    i = 0
+    for N in range(1, N_max + 1):
+        for col in G.small_columns(N, maxsum, maxsum):
+            S = sum(col)
+            if S == 0:
+                continue
+            for size in (1, 2, 3, 4):
+                if S % size:
+                    continue
+                i += 1
+                layout = ["ZC", "CZC", "ZZC"][i % 3]
+                if layout == "CZC" and S > 3:
+                    layout = "ZC"                      # keep the tree small (S! ** 2 leaves)
+                zs = 1 + (i // 3) % 4
+                tag, via = tags_vias[i % len(tags_vias)]
+                sizes = [size if ch == "C" else zs for ch in layout]
+                T = len(layout)
+                jds = [[col[v] if ch == "C" else 0 for ch in layout] for v in range(N)]
+                mis = [[k] for k in range(T)]
+                codes = [G.CLIQUE] * T
+                c = {"tag": tag, "via": via, "jds": jds, "sizes": sizes, "codes": codes,
+                     "names": G.names_for(tag, codes, sizes, mis), "mis": mis if tag == G.MOTIFS else []}
+                yield c
 
 
 # ------------------------------------------------------------------ LONG stub lists, checker only (lessons 13, 29)
@@ -408,6 +446,7 @@ def generate(rng, tier):
     # long stub lists first (checker only; three runs in quick, twelve in thorough; one to two seconds each)
     for i in range(3 if tier == "quick" else 12):
         yield big_case(rng, [G.FAST, G.NETWORK, G.FAST, G.FAST][i % 4])
+    yield from _collecting(zero_column_family(3 if tier == "quick" else 4, 4, tv), rng.randrange(2))
     if tier == "quick":
         yield from _collecting(family(4, 2, 4, tv, nondiv=(5, rng.randrange(5))), rng.randrange(2))
         yield from _collecting(family(0, 3, 3, tv, nondiv=(16, rng.randrange(16))), rng.randrange(2))
